@@ -6,7 +6,7 @@
    (see THEOREM_NOTES: the link to C09's real-valued closed forms is NOT formal), and for an arbitrary `mid` (= grid.middle
    at one fixed level) with the stated properties; only the arithmetic mean `amid` is a PROVED instance of `mid`. *)
 From Coq Require Import ZArith QArith List.
-From RV Require Import Base.QB Model.Grid Gen.GenC01Trunc Model.Chain Proofs.C13_Grid Proofs.C01_Chain.
+From RV Require Import Base.QB Model.Grid Gen.GenC01Trunc Model.Chain Proofs.C13_Grid Proofs.C01_Chain Proofs.C01_Chain2d.
 Import ListNotations.
 Open Scope Q_scope.
 
@@ -86,6 +86,47 @@ Section Measure.
   Qed.
 End Measure.
 
+(* ---------------- dimension 2: the product grid of a copula chain (Model/Chain.v: q_entry2 / q_matrix2 / intensity2, the 3^2-1
+   blocks of compute_intensity_of_jumps).  mass2 a b = model.mass(a, b), the rectangle mass: additive under a split of either
+   coordinate interval and non-negative ON BOXES THAT AVOID THE ORIGIN (what C12 is about; not formally composed) *)
+Section Measure2d.
+  Variable mid : Q -> Q -> Q.
+  Hypothesis mid_between : forall x y, x < y -> x < mid x y /\ mid x y < y.
+  Hypothesis mid_refl : forall x, ~ x == 0 -> mid x x == x.
+  Hypothesis mid_proper : forall x x' y y', x == x' -> y == y' -> mid x y == mid x' y'.
+  Variable mass2 : Q * Q -> Q * Q -> Q.
+  Hypothesis mass2_add1 : forall a1 b1 c1 y1 y2, a1 <= b1 -> b1 <= c1 -> avoids (a1, y1) (c1, y2) ->
+    mass2 (a1, y1) (c1, y2) == mass2 (a1, y1) (b1, y2) + mass2 (b1, y1) (c1, y2).
+  Hypothesis mass2_add2 : forall x1 x2 a2 b2 c2, a2 <= b2 -> b2 <= c2 -> avoids (x1, a2) (x2, c2) ->
+    mass2 (x1, a2) (x2, c2) == mass2 (x1, a2) (x2, b2) + mass2 (x1, b2) (x2, c2).
+  Hypothesis mass2_pos : forall a b, fst a <= fst b -> snd a <= snd b -> avoids a b -> 0 <= mass2 a b.
+  Hypothesis mass2_proper : forall a1 a2 b1 b2 a1' a2' b1' b2', a1 == a1' -> a2 == a2' -> b1 == b1' -> b2 == b2' ->
+    mass2 (a1, a2) (b1, b2) == mass2 (a1', a2') (b1', b2').
+
+  (* the rates of ALL non-origin states of the product grid sum to the intensity the process reports (the eight blocks),
+     for any two admissible axes of any lengths sharing the origin index: telescoping axis by axis *)
+  Theorem C01_sum_rates_is_intensity_2d : forall xs ys o hx hy, admissible xs o hx -> admissible ys o hy ->
+    qsum2 (q_matrix2 mid mass2 xs ys o) == intensity2 mid mass2 xs ys o.
+  Proof. intros xs ys o hx hy Ax Ay. apply (sum_rates_is_intensity_2d mid) with (hx := hx) (hy := hy); assumption. Qed.
+
+  (* the product cells tile the truncated box minus the central cell; every state lies in its own cell *)
+  Theorem C01_cells_tile_2d : forall xs ys o hx hy, admissible xs o hx -> admissible ys o hy ->
+    (forall i j, (i < length xs)%nat -> (j < length ys)%nat ->
+       (cell_lo mid xs i <= nthq xs i <= cell_hi mid xs i /\ cell_lo mid ys j <= nthq ys j <= cell_hi mid ys j)
+       /\ ((i, j) <> (o, o) -> avoids (cell_lo mid xs i, cell_lo mid ys j) (cell_hi mid xs i, cell_hi mid ys j))
+       /\ ((i + 1 < length xs)%nat -> cell_hi mid xs i = cell_lo mid xs (i + 1))
+       /\ ((j + 1 < length ys)%nat -> cell_hi mid ys j = cell_lo mid ys (j + 1)))
+    /\ cell_lo mid xs 0 == headq xs /\ cell_hi mid xs (length xs - 1) == lastq xs
+    /\ cell_lo mid ys 0 == headq ys /\ cell_hi mid ys (length ys - 1) == lastq ys
+    /\ cell_hi mid xs (o - 1) == h_left mid xs o /\ cell_lo mid xs (o + 1) == h_right mid xs o
+    /\ cell_hi mid ys (o - 1) == h_left mid ys o /\ cell_lo mid ys (o + 1) == h_right mid ys o.
+  Proof. intros xs ys o hx hy Ax Ay. apply (cells_tile_2d mid) with (hx := hx) (hy := hy); assumption. Qed.
+
+  Theorem C01_rates_nonneg_2d : forall xs ys o hx hy i j, admissible xs o hx -> admissible ys o hy ->
+    (i < length xs)%nat -> (j < length ys)%nat -> 0 <= q_entry2 mid mass2 xs ys o i j.
+  Proof. intros xs ys o hx hy i j Ax Ay. apply (rates_nonneg_2d mid) with (hx := hx) (hy := hy); assumption. Qed.
+End Measure2d.
+
 (* _truncated_interval (generated from the source): intersection with [l,r], degenerate when disjoint *)
 Theorem C01_truncated_interval : forall l r a b, l <= r -> a <= b ->
   let '(aa, bb) := truncated_interval l r a b in
@@ -112,6 +153,12 @@ Example C01_nonvacuous :
   /\ admissibleb xs 3 (1#2) = true.
 Proof. vm_compute. repeat split. Qed.
 
+Example C01_nonvacuous_2d :
+  let ps := [(1#4, 1#2, -(1#4), 1#4, 4); (1#2, 3#4, 1#4, 2, 4); (-2, -1, -2, 1, 3)] in let xs := [-2; -1; 0; 1; 2] in
+  Qeq_bool (qsum2 (q_matrix2 amid (step_mass2 ps) xs xs 2)) (intensity2 amid (step_mass2 ps) xs xs 2) = true
+  /\ Qeq_bool (intensity2 amid (step_mass2 ps) xs xs 2) (43 # 4) = true.
+Proof. vm_compute. repeat split. Qed.
+
 Print Assumptions C01_cells_tile.
 Print Assumptions C01_cells_avoid_origin.
 Print Assumptions C01_rates_nonneg.
@@ -119,5 +166,10 @@ Print Assumptions C01_sum_rates_is_intensity_1d.
 Print Assumptions C01_truncated_mass.
 Print Assumptions C01_chain_rates.
 Print Assumptions C01_refined.
+Print Assumptions C01_sum_rates_is_intensity_2d.
+Print Assumptions C01_cells_tile_2d.
+Print Assumptions C01_rates_nonneg_2d.
 Print Assumptions C01_truncated_interval.
 Print Assumptions C01_step_mass_is_a_measure.
+Print Assumptions C01_nonvacuous.
+Print Assumptions C01_nonvacuous_2d.
